@@ -689,7 +689,7 @@ def run(ctx):
     prog = ctx.mir("main")
     r7 = Rule("C01.R7", "a literal's index points at its own text in its own locale's table",
               "`nothing is ... taken from another key, subkey group, namespace or locale`: the generated accessor reads `table[index]`; an index "
-              "handed out against another locale's table, or a table missing a string, shows the text of another key", floor=20)
+              "handed out against another locale's table, or a table missing a string, shows the text of another key", floor=12)
     for k in (c11.r1_indexer(ctx, prog), c11.r2_single_writer(ctx, prog), c11.r3_traversal(ctx, prog), c11.r4_subkey_push(ctx)):
         b = borrow(k, "C01.R7", r7.title, r7.reason)
         r7.instances += b.instances
